@@ -27,6 +27,8 @@ type cfg struct {
 	Arrivals []arrival
 	Emits    int
 	Waiter   bool
+	SeqFirst int  // the first SeqFirst arrivals are delivered one after the other by a single thread
+	Fixed    bool // no environment choices: nothing cached initially, every lookup finds the instance
 }
 
 func (c cfg) String() string {
@@ -34,7 +36,7 @@ func (c cfg) String() string {
 	for _, a := range c.Arrivals {
 		fmt.Fprintf(&b, "%c%d", a.Kind, a.Src)
 	}
-	return fmt.Sprintf("%s-e%d-w%v", b.String(), c.Emits, c.Waiter)
+	return fmt.Sprintf("%s-e%d-w%v-q%d-f%v", b.String(), c.Emits, c.Waiter, c.SeqFirst, c.Fixed)
 }
 
 var sources = []gostatsd.Source{"10.0.0.1", "10.0.0.2", ""}
@@ -93,7 +95,10 @@ func (c *cache) outcomeOf(s gostatsd.Source) int {
 	if o, ok := c.r.outcome[s]; ok {
 		return o
 	}
-	o := 1 + vsched.Choose(2, "lookup-outcome")
+	o := 1
+	if !c.r.c.Fixed {
+		o = 1 + vsched.Choose(2, "lookup-outcome")
+	}
 	c.r.outcome[s] = o
 	return o
 }
@@ -103,7 +108,7 @@ func (c *cache) Peek(s gostatsd.Source) (*gostatsd.Instance, bool) {
 	st, ok := c.r.table[s]
 	if !ok {
 		// initial content of the cache for this source: miss, or already resolved
-		if vsched.Choose(2, "initially-cached") == 1 {
+		if !c.r.c.Fixed && vsched.Choose(2, "initially-cached") == 1 {
 			st = c.outcomeOf(s)
 		}
 		c.r.table[s] = st
@@ -175,7 +180,21 @@ func body(c cfg, r *run) func(*vsched.Exec) {
 		// request receiver: always ready to take a lookup request; flags a second request for a source
 		// whose lookup is still outstanding
 		queue := make(chan gostatsd.Source, 8)
+		if c.Fixed {
+			// single-stage cache: take a request, resolve it, answer (fewer threads for the larger arrival sets)
+			vsched.GoNamed("cache", func() {
+				for {
+					s := vsched.Recv(ca.ipSink)
+					vsched.Access(r.tableObj, true, "complete")
+					r.table[s] = ca.outcomeOf(s)
+					vsched.Send(ca.info, gostatsd.InstanceInfo{IP: s, Instance: instanceOf(s)})
+				}
+			})
+		}
 		vsched.GoNamed("cache.recv", func() {
+			if c.Fixed {
+				return
+			}
 			for {
 				s := vsched.Recv(ca.ipSink)
 				vsched.Access(r.tableObj, true, "request")
@@ -187,6 +206,9 @@ func body(c cfg, r *run) func(*vsched.Exec) {
 			}
 		})
 		vsched.GoNamed("cache.complete", func() {
+			if c.Fixed {
+				return
+			}
 			for {
 				s := vsched.Recv(queue)
 				o := ca.outcomeOf(s)
@@ -211,9 +233,8 @@ func body(c cfg, r *run) func(*vsched.Exec) {
 		}
 		var arrived int
 		arrObj := new(int)
-		for i, a := range c.Arrivals {
-			i, a := i, a
-			vsched.GoNamed(fmt.Sprintf("arrival%d", i), func() {
+		deliver := func(i int, a arrival) func() {
+			return func() {
 				src := sources[a.Src]
 				before := len(r.out)
 				if a.Kind == 'm' {
@@ -231,7 +252,20 @@ func body(c cfg, r *run) func(*vsched.Exec) {
 				}
 				vsched.Access(arrObj, true, "arrived")
 				arrived++
+			}
+		}
+		if c.SeqFirst > 0 {
+			vsched.GoNamed("arrivals-in-sequence", func() {
+				for i := 0; i < c.SeqFirst; i++ {
+					deliver(i, c.Arrivals[i])()
+				}
 			})
+		}
+		for i, a := range c.Arrivals {
+			if i < c.SeqFirst {
+				continue
+			}
+			vsched.GoNamed(fmt.Sprintf("arrival%d", i), deliver(i, a))
 		}
 		if c.Waiter {
 			vsched.GoNamed("waiter", func() {
@@ -352,12 +386,17 @@ func configs() []cfg {
 		}
 		return as
 	}
+	if os.Getenv("C11_ONLY") != "" {
+		return []cfg{{A(os.Getenv("C11_ONLY")), 0, false, 2, true}}
+	}
 	cs := []cfg{
-		{A("m0e0"), 1, false}, {A("e0m0"), 1, false}, {A("m0m0"), 0, false}, {A("e0e0"), 0, true}, {A("m0e1"), 0, false},
-		{A("e0m2"), 0, true},
+		{A("m0e0"), 1, false, 0, false}, {A("e0m0"), 1, false, 0, false}, {A("m0m0"), 0, false, 0, false}, {A("e0e0"), 0, true, 0, false}, {A("m0e1"), 0, false, 0, false},
+		{A("e0m2"), 0, true, 0, false},
 	}
 	if vrt.Thorough() {
-		cs = append(cs, cfg{A("e0m0"), 2, false}, cfg{A("m0m1e0"), 0, false}, cfg{A("e0e1m0"), 1, true}, cfg{A("m0e0m0"), 2, false}, cfg{A("e0m0e0"), 2, true}, cfg{A("m0e0m1e1"), 1, false}, cfg{A("m0m0e0e0"), 1, true}, cfg{A("e0m0m1"), 2, true}, cfg{A("m0e0e1m2"), 1, true})
+		cs = append(cs, cfg{A("e0m0"), 2, false, 0, false}, cfg{A("m0m1e0"), 0, false, 0, false}, cfg{A("e0e1m0"), 1, true, 0, false}, cfg{A("m0e0m0"), 2, false, 0, false}, cfg{A("e0m0e0"), 2, true, 0, false}, cfg{A("m0e0m1e1"), 1, false, 0, false}, cfg{A("m0m0e0e0"), 1, true, 0, false}, cfg{A("e0m0m1"), 2, true, 0, false}, cfg{A("m0e0e1m2"), 1, true, 0, false}, cfg{A("m0m0m0m0"), 0, false, 2, true},
+			// two events parked, then two more arriving around the completion of the first lookup
+			cfg{A("e0e0e0e0"), 0, false, 2, true})
 	}
 	return cs
 }
